@@ -102,6 +102,9 @@ fn check_bytes(bytes: &[u8], kvs: &[Kv]) -> Result<u64, String> {
 }
 
 pub fn replay(case: &Value) -> Result<String, String> {
+    if case["gapsv"].as_bool() == Some(true) {
+        return super::c10::run_gaps_versions(case["n"].as_u64().unwrap() as usize, case["variant"].as_u64().unwrap() as usize, case["depth"].as_u64().unwrap() as usize, 4).map(|n| format!("{} queries agree", n));
+    }
     run_case(&kvs_from(&case["kvs"]), geom_from(&case["geom"])).map(|n| format!("{} queries agree", n))
 }
 
@@ -136,7 +139,7 @@ fn increasing(n: usize, m: u64, f: &mut dyn FnMut(&[u64])) {
 pub fn plan(tier: Tier) -> Plan {
     let mut p = Plan::new("C16", "model_checking");
     let thorough = tier.thorough();
-    p.rule = "every key set of U_ab3 with <= 5 keys (thorough: <= 7) and of U_abc2 with <= 4 (thorough: <= 6) x EVERY strictly increasing value assignment from {0..n+3} (C(n+4,n) each), plus gapped assignments at pack-width boundaries and with u64::MAX as the largest value; with and without the empty key; queries: every value in 0..=max+2, every stored value +-1, 0, 1, u64::MAX-1, u64::MAX, through get_key and get_key_into (buffer pre-filled with 'xy'; and one arena buffer growing over all queries, starting empty, as large as the file, and at 64 KiB); for every fifth map of <= 6 keys also on the FSTs of builders kept in use after rejected calls. non-trivial = maps with >= 2 keys".into();
+    p.rule = "every key set of U_ab3 with <= 5 keys (thorough: <= 7) and of U_abc2 with <= 4 (thorough: <= 6) x EVERY strictly increasing value assignment from {0..n+3} (C(n+4,n) each), plus gapped assignments at pack-width boundaries and with u64::MAX as the largest value; with and without the empty key; queries: every value in 0..=max+2, every stored value +-1, 0, 1, u64::MAX-1, u64::MAX, through get_key and get_key_into (buffer pre-filled with 'xy'; and one arena buffer growing over all queries, starting empty, as large as the file, and at 64 KiB); for every fifth map of <= 6 keys also on the FSTs of builders kept in use after rejected calls. non-trivial = maps with >= 2 keys; wide nodes with gaps in files of versions 1, 2 and 3 from the reference encoder (every value 0..2n+2)".into();
     p.assumptions = vec!["the buffer content after get_key_into returned false is unspecified and not compared".into()];
     for (u, maxk) in [(u_ab3(), if thorough { 7 } else { 5 }), (u_abc2(), if thorough { 6 } else { 4 })] {
         let mut masks = vec![];
@@ -215,6 +218,21 @@ pub fn plan(tier: Tier) -> Plan {
                 st.nontrivial += 1;
                 st.count("mixed_cases", 1);
                 do_case(&kvs, (10_000, 2), st, rep);
+            }
+        }));
+    }
+    // the gap family written by the reference encoder in versions 1, 2 and 3
+    for n in [2usize, 31, 32, 33, 34, 40, 64, 100, 255, 256] {
+        p.units.push(unit("wide-nodes-with-gaps-in-versions-1-2-3", format!("gaps versions fan-out {}", n), move |st, rep| {
+            for variant in 0..5usize {
+                for depth in 0..2usize {
+                    st.states += 3;
+                    st.nontrivial += 3;
+                    match super::c10::run_gaps_versions(n, variant, depth, 4) {
+                        Ok(c) => { st.evals += c; st.transitions += c; st.count("gap_version_queries", c); }
+                        Err(msg) => rep.violation(format!("gaps versions fan-out {} variant {} depth {}", n, variant, depth), msg, json!({"gapsv": true, "n": n, "variant": variant, "depth": depth, "kvs": [], "geom": [3, 3]})),
+                    }
+                }
             }
         }));
     }
